@@ -8,12 +8,14 @@ require (
 	github.com/getlantern/golog v0.0.0-20210606115803-bce9f9fe5a5f
 	github.com/getlantern/wal v0.0.0-20220217194315-e4eac848dbd1
 	github.com/getlantern/zenodb v0.0.0
+	github.com/gorilla/mux v1.7.1
 	github.com/spaolacci/murmur3 v1.1.0
 )
 
 require (
 	github.com/HdrHistogram/hdrhistogram-go v1.1.0 // indirect
 	github.com/aristanetworks/goarista v0.0.0-20190502180301-283422fc1708 // indirect
+	github.com/boltdb/bolt v1.3.1 // indirect
 	github.com/cespare/xxhash/v2 v2.1.1 // indirect
 	github.com/cloudfoundry/gosigar v1.1.0 // indirect
 	github.com/davecgh/go-spew v1.1.1 // indirect
@@ -27,17 +29,20 @@ require (
 	github.com/getlantern/mtime v0.0.0-20170117193331-ba114e4a82b0 // indirect
 	github.com/getlantern/ops v0.0.0-20200403153110-8476b16edcd6 // indirect
 	github.com/getlantern/sqlparser v0.0.0-20171012210704-a879d8035f3c // indirect
+	github.com/getlantern/uuid v1.2.0 // indirect
 	github.com/getlantern/vtime v0.0.0-20160810174823-dc1e573cf991 // indirect
 	github.com/getlantern/yaml v0.0.0-20190801163808-0c9bb1ebf426 // indirect
 	github.com/go-redis/redis/v8 v8.11.3 // indirect
 	github.com/go-stack/stack v1.8.1 // indirect
 	github.com/golang/snappy v0.0.3 // indirect
+	github.com/gorilla/securecookie v1.1.1 // indirect
 	github.com/hashicorp/golang-lru v0.5.4 // indirect
 	github.com/oschwald/geoip2-golang v1.5.0 // indirect
 	github.com/oschwald/maxminddb-golang v1.8.0 // indirect
 	github.com/oxtoacart/bpool v0.0.0-20190530202638-03653db5a59c // indirect
 	github.com/oxtoacart/emsort v0.0.0-20160911032127-e467347e3354 // indirect
 	github.com/pmezard/go-difflib v1.0.0 // indirect
+	github.com/retailnext/hllpp v1.0.0 // indirect
 	github.com/rickar/props v0.0.0-20170718221555-0b06aeb2f037 // indirect
 	github.com/shirou/gopsutil v2.18.12+incompatible // indirect
 	github.com/stretchr/testify v1.7.0 // indirect
